@@ -13,6 +13,19 @@ CHECKS = {
          "DESIGN.md section 3 C16"),
 }
 
+CHECKS.update({
+ "C03": ("exploration",
+         "runtime differential monitor: library APER encoder vs an independent X.691 encoder (ref/per) on generated NGAP values; negative sweep with one component perturbed out of its constraint",
+         "Generated constraint-satisfying values of every generatable NGAP message and transfer container (reflection over ngapType, boundary-biased), every leaf tag shape at bit offsets 0..7, and >=16K fragmentation cases are encoded by the real library in child processes and compared byte for byte with an independent X.691 encoder; perturbed values must be refused. A disagreement is localised to the deepest component that still disagrees stand-alone.",
+         "Schema = ngapType struct tags (backed by a hand-written table of ~57 TS 38.413 constraints asserted each run); oracle ref/per self-tested on hand-derived encodings; out-of-root values of extensible constraints are outside the claim.",
+         "DESIGN.md section 3 C03"),
+ "C04": ("exploration",
+         "runtime round-trip monitor: Decoder(Encoder(v))==v, Decoder(canonical bytes from ref/per)==v, Encoder(Decoder(b))==b, with exhaustive OPTIONAL-presence enumeration per SEQUENCE",
+         "The same value stream as C03 restricted to in-root values is pushed through the real decoder and encoder; canonical encodings come from the independent encoder. All 2^k OPTIONAL combinations of every SEQUENCE type with k<=10 are enumerated, leaf shapes are decoded at all bit offsets, fragmented lengths are round-tripped.",
+         "Equality ignores nil-vs-empty slices and BIT STRING padding bits; decoder gets private copies of buffers (it aliases its input).",
+         "DESIGN.md section 3 C04"),
+})
+
 NOT_YET = {}
 
 def main():
